@@ -18,6 +18,7 @@ type Analysis struct {
 	counters     map[*ssa.Global]bool       // cache of isCounter
 	predFixed    map[int]int64              // parameters fixed for the predicate being classified (semanticPredicateFixed)
 	descTables   map[*ssa.Global]*descTable // lookup map variable → the descriptor table it is an entry of (T3)
+	genOptParams map[*ssa.Parameter]AV      // parameters of the generator's update function that receive a command-line option, with its default
 	genSynthText string                     // the template equivalent to a hand-rendered generator output (W2 render, W3)
 	descGuards   int                        // lookup maps built under the Once of a descriptor-table element
 	initBuilt    int                        // lookup maps built during package initialisation (T3)
